@@ -96,8 +96,8 @@ def tested_scalar(op, pot_mod, pot_name, k, tk, rk, order, translate=False):
     g1, g2 = _two_grids(translate)
     # between disjoint grids only the REGULAR order may matter: the singular order is chosen different from it
     par = Z.params(order, order + 2 if order % 2 else max(1, order - 3))
-    test = api.function_space(g1, *tk)
-    trial = api.function_space(g2, *rk)
+    test = api.function_space(g1, tk[0], tk[1], **(tk[2] if len(tk) > 2 else {}))
+    trial = api.function_space(g2, rk[0], rk[1], **(rk[2] if len(rk) > 2 else {}))
     A = Z.dense(Z.boundary_operator(op, trial, trial, test, par, wavenumber=k))
     q, w = rule(order)
     pts = g1.map_to_point_cloud(local_points=q).T
@@ -125,12 +125,14 @@ def ob_numeric_scalar(op, pot_mod, pot_name, k):
     """bounded: two-grid matrix == tested potential to 1e-12 (octahedron vs displaced tetrahedron; P1 x DP0 and DP1 x P1; regular orders 3 and 6 with a
     different singular order, which must be irrelevant between disjoint grids)."""
     worst = 0.0
-    for tk, rk, tr, order in ((("P", 1), ("DP", 0), False, 3), (("DP", 1), ("P", 1), False, 6), (("DP", 0), ("P", 1), True, 3)):
+    for tk, rk, tr, order in ((("P", 1), ("DP", 0), False, 3), (("DP", 1), ("P", 1), False, 6), (("DP", 0), ("P", 1), True, 3),
+                              # spaces on a SUBSET of their grid (the potential goes through map_to_full_grid, the matrix through local2global)
+                              (("DP", 0), ("DP", 1, {"support_elements": [1, 3]}), False, 3), (("P", 1, {"support_elements": [0, 2, 5], "include_boundary_dofs": True}), ("P", 1, {"support_elements": [0, 2], "include_boundary_dofs": True}), False, 3)):
         err = tested_scalar(op, pot_mod, pot_name, k, tk, rk, order, tr)
         worst = max(worst, err)
         if err > 1e-12:
             return violated("%s between disjoint grids%s differs from the tested %s.%s potential by %.2e" % (op, " (second grid = translate of the first)" if tr else "", pot_mod, pot_name, err),
-                            witness={"op": op, "test": list(tk), "trial": list(rk), "translate": tr},
+                            witness={"op": op, "test": [tk[0], tk[1]], "trial": [rk[0], rk[1]], "options": [tk[2] if len(tk) > 2 else {}, rk[2] if len(rk) > 2 else {}], "translate": tr},
                             replay={"callable": "checks.c07:replay_numeric_scalar", "kwargs": {"op": op, "pot_mod": pot_mod, "pot_name": pot_name, "k": [np.real(k), np.imag(k)] if k is not None else None},
                                     "confirmed": True}, signature="c07-numeric/%s" % op)
     return held("worst %.1e" % worst)
